@@ -146,6 +146,8 @@ package main
 //@ func handleConn
 //@   mode permissive
 //@   requires conf != nil && !isnil(conn) && frameLogIntervalFirstMin >= 1 && frameLogInterval >= 1
+//@   only [C14] reader in ReadHeaderInfo#1, ReadFull#1, ReadFull#2
+//@   only [C14] conn in NewReader#1
 //@   call ReadHeaderInfo#1 assert [C14] ncalls("NewReader") == 1 && $0 == callres("NewReader", 1) && callarg("NewReader", 1, 0) == conn
 //@   call ReadHeaderInfo#1 given_after $result.1 == nil ==> $result.0 != nil && $result.0.fps >= 1 && $result.0.resX >= 0 && $result.0.resY >= 0 && $result.0.framesize >= 5
 //@   call ReadHeaderInfo#1 given_after $result.1 == nil ==> asiface("*headers.HeaderInfo", $result.0, "cptvframe.CameraSpec").FPS() == $result.0.fps && asiface("*headers.HeaderInfo", $result.0, "cptvframe.CameraSpec").ResX() == $result.0.resX && asiface("*headers.HeaderInfo", $result.0, "cptvframe.CameraSpec").ResY() == $result.0.resY
@@ -202,6 +204,7 @@ package main
 //@   check [C11,C05] result1 == nil && sitehappened("NewConfig", 1) && sitehappened("NewConfig", 2) ==> result0.Throttler.Activate == siteres("NewConfig", 2).0.Activate && result0.Throttler.BucketSize == siteres("NewConfig", 2).0.BucketSize && result0.Throttler.MinRefill == siteres("NewConfig", 2).0.MinRefill
 //@   check [C11] sitehappened("Unmarshal", 4) ==> result1 == nil ==> result0.Location == locationConfig
 //@   check [C11] result1 == nil ==> sitehappened("Unmarshal", 4)
+//@   check [C11] happened("Unmarshal", 1) ==> callarg("Unmarshal", 1, 1) == config.LocationKey && atcall("Unmarshal", 1, locationConfig.Latitude == f32zero() && locationConfig.Longitude == f32zero() && locationConfig.Altitude == f32zero() && locationConfig.Accuracy == f32zero())
 
 //@ func (c *Config) LoadMotionConfig
 //@   mode permissive
